@@ -557,6 +557,14 @@ func statusTypestate(c *Ctx) {
 		// a status chosen between constants on the way to one store (`if accepted { po.Status = Accepted } else { po.Status =
 		// Rejected }; k.Set(po)`) is one transition per constant: each is judged where that constant is assigned — the
 		// assignment must stand under the guards of its transition
+		if status.Op == "call" && status.Callee != nil && w.EnumResult(status.Callee, 0) {
+			// the status is the verdict of a helper (kept as the helper's call): one transition per constant it returns
+			if split := verdictSplit(c, pw, st); len(split) > 0 {
+				extra = append(extra, split...)
+				nw += len(split) - 1
+				continue
+			}
+		}
 		if alts := status.Alts(); len(alts) > 1 {
 			allConst := true
 			// (an alternative that is the loaded order's own status — the arm of a verdict switch that assigns nothing —
